@@ -395,3 +395,37 @@ def decorators(chk, prefix="C08"):
                               desc=f"{dec}(f)(*a, **k) is a function g with g._original_name == f.__name__ and g(leading...) == f(leading..., *a, **k): the user function is called exactly once with the leading argument(s) first, and its value is returned")
         if n == 0:
             chk.fault(f"{dec}: no path explored")
+
+
+def batch_summary_wiring(chk, prefix="C16"):
+    """DurableContext.map / parallel: the summary generator of the configuration (default: Map/ParallelSummaryGenerator) is handed to the child
+    handler of the WHOLE operation - the place where the BatchResult is serialized and, when oversized, summarised"""
+    for meth, default_cls, cfg_cls in (("map", "MapSummaryGenerator", "config.MapConfig"), ("parallel", "ParallelSummaryGenerator", "config.ParallelConfig")):
+        for with_cfg in (False, True):
+            eng = Engine(hooks=CounterHooks())
+            P = eng.program
+            st = St()
+            ctx, parent, c0, state = make_ctx(eng, st)
+            user_sg = OpaqueFn("user_summary_generator")
+            cfg = None
+            if with_cfg:
+                made = eng.construct(P.cls(cfg_cls), [], {"summary_generator": user_sg}, st)
+                cfg, st = made[0][1], made[0][2]
+
+            def child_handler(eng_, s, args, kwargs):
+                s.emit("child_handler", config=kwargs.get("config"))
+                return [("val", fresh("any", "batch_result"), s)]
+            eng.summaries["operation.child.child_handler"] = child_handler
+            args = [st.alloc("list", {"__kind__": "list", "items": ()})] + ([OpaqueFn("user_func")] if meth == "map" else [])
+            for k, v, s in eng.run(P.func(f"{DC}.{meth}"), [ctx] + args, {"name": None, "config": cfg}, st=st):
+                chk.paths += 1
+                ch = [e for e in s.trace if e.kind == "child_handler"]
+                ok = len(ch) == 1 and isinstance(ch[0].config, Ref)
+                if ok:
+                    sg = s.get(ch[0].config).get("summary_generator")
+                    if with_cfg:
+                        ok = sg is user_sg
+                    else:
+                        ok = isinstance(sg, Ref) and getattr(sg.cls, "name", "") == default_cls
+                chk.prove(f"{prefix}.ctx.batch_summary_wiring.{meth}", s.pc, z3.BoolVal(bool(ok)),
+                          desc=f"{meth}: the child handler of the whole operation gets the configuration's summary generator ({default_cls}() when no configuration is given), so an oversized BatchResult is recorded as that summary")
